@@ -171,6 +171,14 @@ func (fc *FnCtx) rebindLocal(name string, li *loopInfo) (string, bool) {
 		return "", false
 	}
 	locals := debugLocals(root.fn)
+	if fc != root {
+		// a loop moved into an inlined helper: its loop-carried variables are the helper's
+		for n, T := range debugLocals(fc.fn) {
+			if _, dup := locals[n]; !dup {
+				locals[n] = T
+			}
+		}
+	}
 	if _, still := locals[name]; still {
 		return "", false // the name exists but is not in scope here: not a rename
 	}
